@@ -38,8 +38,14 @@ theorem C10_scan_body (ts : List Tok) (hall : ∀ t ∈ ts, t.ok = true) (hseq :
       seekEnd f0 1 [] (renderToks ts ++ ')' :: (ws ++ ';' :: rest)) := by
     simp [seekEnd]
   rw [h1, he, hd]
+  obtain ⟨f2, rfl⟩ : ∃ j, f1 = j + 1 := ⟨f1 - 1, by omega⟩
   have hsk := skipWS_ws_append ws hws ';' (by decide) rest
-  simp (config := { decide := true }) [seekEnd, hsk]
+  have hbt : betweenTokens (f2 + 1) (ws ++ ';' :: rest) = .ok (';' :: rest) := by
+    unfold betweenTokens
+    split
+    · simp [skipWSC, hsk]
+    · rw [hsk]
+  simp (config := { decide := true }) [seekEnd, hbt]
 
 /-- non-vacuity: `('it''s #5 (( ;',/*#7 ( ;*/ #12,(#3))` followed by ` ;` -/
 example :
